@@ -44,7 +44,7 @@ CHECKS = {
         note=MSG_NOTE + SRC_NOTE, ref="DESIGN.md §6 C01"),
     "C02": dict(
         technique='Coq proof (ghost trace of the definition walk: induction over the nested definition type for every definition list, payload, repeat count and bitfield view) + extracted-model correspondence on every definition + independent spec decoder',
-        text="C02_trace: for every definition list and payload the fields read tile the payload from offset 0 in definition order, each recorded value is the decoding (little-endian / two's complement / IEEE-754 / scaled+rounded / raw bitfield / bit slice) of exactly its own bytes, the payload is untouched and the attribute dictionary is the records applied in order; C02_shape: the records are the definition unfolded with index paths [1],[2],.. ([1;1].. nested); C02_int_field, C02_flag, C02_payload_unchanged. C02_variant_lengths (table) and C02_variant_cfgnmea/aopstatus/rxmpmreq/rxmrlm/relposned/secsig/alpsrv: which definition each payload variant selects (length- or byte-discriminated), with the dispatch table regenerated from the code; the cfg key/value walk is C14's. Searches: independent spec decoder vs the implementation over every (mode, definition, variant) x counts incl. mixed zero/non-zero counts x fills x both bitfield views. C02_selectors_from_source: every row of VARIANTS — the source's selector function, translated on every run and called the way _get_dict calls it — returns for every keyword set / payload the definition the model's selector returns; C02_get_dict_from_source: _get_dict itself (VARIANTS lookup, calling convention, table lookups by identity, NOMINAL test, except KeyError), translated on every run, is the model's get_dict; variant sweep (every row x payload lengths x discriminator bytes) in the correspondence.",
+        text="C02_trace: for every definition list and payload the fields read tile the payload from offset 0 in definition order, each recorded value is the decoding (little-endian / two's complement / IEEE-754 / scaled+rounded / raw bitfield / bit slice) of exactly its own bytes, the payload is untouched and the attribute dictionary is the records applied in order; C02_shape: the records are the definition unfolded with index paths [1],[2],.. ([1;1].. nested); C02_int_field, C02_flag, C02_payload_unchanged. C02_variant_lengths (table) and C02_variant_cfgnmea/aopstatus/rxmpmreq/rxmrlm/relposned/secsig/alpsrv: which definition each payload variant selects (length- or byte-discriminated), with the dispatch table regenerated from the code; the cfg key/value walk is C14's. Searches: independent spec decoder vs the implementation over every (mode, definition, variant) x counts incl. mixed zero/non-zero counts x fills x both bitfield views. C02_selectors_from_source: every row of VARIANTS — the source's selector function, translated on every run and called the way _get_dict calls it — returns for every keyword set / payload the definition the model's selector returns; C02_get_dict_from_source: _get_dict itself (VARIANTS lookup, calling convention, table lookups by identity, NOMINAL test, except KeyError), translated on every run, is the model's get_dict; C02_identity_from_source: the identity property likewise; variant sweep (every row x payload lengths x discriminator bytes) in the correspondence.",
         note=MSG_NOTE + SRC_NOTE, ref="DESIGN.md §6 C02"),
     "C03": dict(
         technique='Coq proof (build/parse simulation over the ghost trace for every definition list; real-number error analysis over Flocq for the scaled round trip) + refutation witnesses for the recorded findings + BUILD correspondence / rebuild search',
